@@ -72,6 +72,14 @@ CHECKS['C06'] = dict(
     level='proof',
     text='Theorem in Coq over the COMPLETE state space of the stream object (7 RFC states x role x 4 message flags x closed_by) and all 19 inputs: the reaction of the transition table regenerated from stream._transitions plus the side-effect functions (accepted + new state / refused / stream error code / connection error code, told apart as _receive_frame does) equals the reaction of an RFC 7540 section 5.1 reference machine written from the RFC text (Spec/Rfc51.v), except on an explicit, proved-tight list of pairs (documented leniencies, internal inputs, undocumented divergences = known findings F-C06-1..4); permitted actions are possible; accepted steps keep the stream object in lock-step with the RFC machine. Finite space decided by vm_compute and lifted to a universally quantified theorem. Tie to the code: table regenerated every run + exhaustive comparison of all 31 920 process_input configurations with the real H2StreamStateMachine + directed connection-level programs (every zoo state x every frame / action) and random programs compared with the connection model and judged by the RFC table.',
     design='7.C06', technique='Coq theorem over a finite complete state space (vm_compute, forallb lifted) against an independent RFC reference + exhaustive correspondence')
+CHECKS['C07'] = dict(
+    level='proof',
+    text='Theorems in Coq: (1) the set of states a stream state machine can reach from a fresh one under ANY input sequence is computed inside Coq and proved closed under every input (an invariant over all histories, unbounded length); over that set: DataReceived only after final headers, a server-side stream never yields Response / Informational / Pushed events and a client-side one never RequestReceived, nothing is accepted after the peer ended the stream, informational only before the final response, one final header block then trailers once, StreamReset at most once and no stream event from a closed stream; (2) for every header list, flag and stream state, the event list H2Stream.receive_headers / receive_data returns has its stream_ended link pointing at the next element of the same list with the same stream id, trailers always carry it, informational responses never do. Receive-heavy programs are compared with the model and run through an independent per-stream grammar monitor on the real events (known finding F-C07-1: a client reports RequestReceived for HEADERS on a never-promised even stream).',
+    design='7.C07', technique='Coq invariant via computed reachable-state closure (proved closed) + structural lemma on event lists + differential correspondence + runtime grammar monitor')
+CHECKS['C08'] = dict(
+    level='proof',
+    text='Theorems in Coq over the reachable-state closure of the stream state machine (all histories): headers after trailers and informational responses after the final response are refused, the second header block is trailers, a stream opened as a client never sends a response / PUSH_PROMISE / ALTSVC, RequestSent only from idle, nothing but RST / WINDOW_UPDATE after the local end; the connection role gate (client cannot SEND_PUSH_PROMISE / SEND_ALTERNATIVE_SERVICE once open) from the regenerated table. Two clauses are refuted with witnesses (Properties/C08_refuted.v): DATA / END_STREAM before response headers is accepted on peer-opened streams (F-C08-2); an IDLE connection accepts SEND_ALTERNATIVE_SERVICE whatever its role (F-C08-3); plus F-C08-1 (server opens an even stream with send_headers). Send-heavy programs are compared with the model and judged by a per-stream monitor of accepted send operations.',
+    design='7.C08', technique='Coq invariant via computed reachable-state closure + refutation witnesses + differential correspondence + runtime send-grammar monitor')
 NA_REASON = {}
 def main():
     checks = []
